@@ -251,8 +251,8 @@ package node
 //@ ghostheap routed(p gen.PID) int
 //@ func (n *node) RouteSendPID
 //@   props C02 C03
-//@   modifies pushed, woken, routed(to), anyof(process).messagesIn
-//@   ensures_ghost routed(to) == old(routed(to)) + 1
+//@   modifies pushed, woken, routed(to), routeCalls(), anyof(process).messagesIn
+//@   ensures_ghost routed(to) == old(routed(to)) + 1 && routeCalls() == old(routeCalls()) + 1
 //@   requires [tables] processesWF(n) && namesWF(n) && (forall k any :: smHas(n.processes, k) ==> mailboxWF(smVal(n.processes, k).(*process)))
 //@   ensures [accepted_one_push_then_wake] result == nil && to.Node == n.name && n.creation > 0 ==> smHas(n.processes, any(to)) && (pushed(prioQueue(procOf(n, to), options.Priority)) == old(pushed(prioQueue(procOf(n, to), options.Priority))) + 1 && woken(procOf(n, to)) == old(woken(procOf(n, to))) + 1 || procOf(n, to).fallback.Enable)
 //@   ensures [accepted_only_that_queue] result == nil && to.Node == n.name && !procOf(n, to).fallback.Enable ==> forall q lib.QueueMPSC :: q != prioQueue(procOf(n, to), options.Priority) ==> pushed(q) == old(pushed(q))
@@ -383,9 +383,11 @@ package node
 //@   props C01 C05
 //@   protocol procState at p
 //@   no_frame
-//@   modifies killAsked(pid), anyof(process).state, owner, fin, zs
+//@   modifies killAsked(pid), procOf(n, pid).state, owner(procOf(n, pid)), fin(procOf(n, pid)), zs(procOf(n, pid)), smHas(n.processes), smHas(n.names), smHas(n.aliases), smHas(n.events), exitSent, exitCalls(), routed, routeCalls(), pushed, woken, mwoken, lastLinks(), lastMonitors(), consumerCleaned(pid), anyof(process).messagesIn, anyof(gen.MailboxMessage).From, anyof(gen.MailboxMessage).Type, anyof(gen.MailboxMessage).Message, anyof(application).state, anyof(application).reason, anyof(application).started, anyof(application).parent, appTermCb, lastTermReason, exitAsked
+//@   ensures [tables_kept] tablesWF(n)
 //@   ensures_ghost killAsked(pid) == old(killAsked(pid)) + 1
-//@   requires [tables] processesWF(n)
+//@   ensures [never_back_to_init] smHas(n.processes, any(pid)) ==> procOf(n, pid).state != 1
+//@   requires [tables] tablesWF(n)
 //@   assume [tables2] forall k any :: smHas(n.processes, k) ==> unregWF(n, smVal(n.processes, k).(*process))
 //@   at call unregisterProcess assert [finaliser_only] fin(p) == me && owner(p) == 0
 //@   at atomic 1 ghost zs = (result == 2 ? me : zs(p))
@@ -516,10 +518,12 @@ package node
 //@   modifies lastLinks(), lastMonitors()
 //@   ensures lastLinks() == result.0 && lastMonitors() == result.1 && nodupPIDs(result.0) && nodupPIDs(result.1)
 
+//@ ghostheap exitCalls() int
+//@ ghostheap routeCalls() int
 //@ func (n *node) sendExitMessage
 //@   trusted
-//@   modifies exitSent(to)
-//@   ensures exitSent(to) == old(exitSent(to)) + 1
+//@   modifies exitSent(to), exitCalls()
+//@   ensures exitSent(to) == old(exitSent(to)) + 1 && exitCalls() == old(exitCalls()) + 1
 
 //@ iface gen.Connection.SendTerminatePID
 //@ iface gen.Connection.SendTerminateEvent
@@ -529,7 +533,7 @@ package node
 //@ func (n *node) RouteTerminatePID
 //@   props C04 C03 C14
 //@   mode int
-//@   modifies exitSent, routed, pushed, woken, lastLinks(), lastMonitors(), anyof(process).messagesIn
+//@   modifies exitSent, exitCalls(), routed, routeCalls(), pushed, woken, lastLinks(), lastMonitors(), anyof(process).messagesIn
 //@   may_panic
 //@   requires [tables] processesWF(n) && namesWF(n) && (forall k any :: smHas(n.processes, k) ==> mailboxWF(smVal(n.processes, k).(*process)))
 //@   loop 1 invariant [idx1] -1 <= rangeindex && rangeindex < len(linkConsumers) && linkConsumers == lastLinks() && monitorConsumers == lastMonitors() && nodupPIDs(linkConsumers) && nodupPIDs(monitorConsumers) && remote != nil
@@ -553,7 +557,7 @@ package node
 //@ func (n *node) RouteTerminateEvent
 //@   props C04 C03 C14
 //@   mode int
-//@   modifies exitSent, routed, pushed, woken, lastLinks(), lastMonitors(), anyof(process).messagesIn
+//@   modifies exitSent, exitCalls(), routed, routeCalls(), pushed, woken, lastLinks(), lastMonitors(), anyof(process).messagesIn
 //@   may_panic
 //@   requires [tables] processesWF(n) && namesWF(n) && (forall k any :: smHas(n.processes, k) ==> mailboxWF(smVal(n.processes, k).(*process)))
 //@   loop 1 invariant [idx1] -1 <= rangeindex && rangeindex < len(linkConsumers) && linkConsumers == lastLinks() && monitorConsumers == lastMonitors() && nodupPIDs(linkConsumers) && nodupPIDs(monitorConsumers) && remote != nil
@@ -577,7 +581,7 @@ package node
 //@ func (n *node) RouteTerminateAlias
 //@   props C04 C03 C14
 //@   mode int
-//@   modifies exitSent, routed, pushed, woken, lastLinks(), lastMonitors(), anyof(process).messagesIn
+//@   modifies exitSent, exitCalls(), routed, routeCalls(), pushed, woken, lastLinks(), lastMonitors(), anyof(process).messagesIn
 //@   may_panic
 //@   requires [tables] processesWF(n) && namesWF(n) && (forall k any :: smHas(n.processes, k) ==> mailboxWF(smVal(n.processes, k).(*process)))
 //@   loop 1 invariant [idx1] -1 <= rangeindex && rangeindex < len(linkConsumers) && linkConsumers == lastLinks() && monitorConsumers == lastMonitors() && nodupPIDs(linkConsumers) && nodupPIDs(monitorConsumers) && remote != nil
@@ -601,7 +605,7 @@ package node
 //@ func (n *node) RouteTerminateProcessID
 //@   props C04 C03 C14
 //@   mode int
-//@   modifies exitSent, routed, pushed, woken, lastLinks(), lastMonitors(), anyof(process).messagesIn
+//@   modifies exitSent, exitCalls(), routed, routeCalls(), pushed, woken, lastLinks(), lastMonitors(), anyof(process).messagesIn
 //@   may_panic
 //@   requires [tables] processesWF(n) && namesWF(n) && (forall k any :: smHas(n.processes, k) ==> mailboxWF(smVal(n.processes, k).(*process)))
 //@   loop 1 invariant [idx1] -1 <= rangeindex && rangeindex < len(linkConsumers) && linkConsumers == lastLinks() && monitorConsumers == lastMonitors() && nodupPIDs(linkConsumers) && nodupPIDs(monitorConsumers) && remote != nil
@@ -765,7 +769,7 @@ package node
 //@ func (n *node) unregisterProcess
 //@   props C06 C04 C17
 //@   mode int
-//@   modifies smHas(n.processes), smHas(n.names), smHas(n.aliases), smHas(n.events), exitSent, routed, pushed, woken, mwoken, lastLinks(), lastMonitors(), consumerCleaned(p.pid), anyof(process).messagesIn, anyof(gen.MailboxMessage).From, anyof(gen.MailboxMessage).Type, anyof(gen.MailboxMessage).Message, appOf(n, p).state, appOf(n, p).reason, appOf(n, p).started, appOf(n, p).parent, mapof(appOf(n, p).group.m), appTermCb, lastTermReason, exitAsked
+//@   modifies smHas(n.processes), smHas(n.names), smHas(n.aliases), smHas(n.events), exitSent, exitCalls(), routed, routeCalls(), pushed, woken, mwoken, lastLinks(), lastMonitors(), consumerCleaned(p.pid), anyof(process).messagesIn, anyof(gen.MailboxMessage).From, anyof(gen.MailboxMessage).Type, anyof(gen.MailboxMessage).Message, appOf(n, p).state, appOf(n, p).reason, appOf(n, p).started, appOf(n, p).parent, mapof(appOf(n, p).group.m), appTermCb, lastTermReason, exitAsked
 //@   requires [tables] unregWF(n, p)
 //@   at call RouteTerminatePID assert [pid_announced_gone_with_the_reason] target == p.pid && reason == caller_reason
 //@   at call RouteTerminateProcessID assert [name_announced_gone_with_the_reason] target.Name == p.name && target.Node == n.name && reason == caller_reason
@@ -782,6 +786,7 @@ package node
 //@   at range 2 invariant [meta_aliases_so_far] forall k any :: rseen(2, k) ==> !smHas(n.aliases, any(smVal(p.metas, k).(*meta).id))
 //@   at range 2 invariant [wake_ups_only_grow] forall m *meta :: mwoken(m) >= old(mwoken(m))
 //@   at range 2 invariant [metas_woken_so_far] forall k any :: rseen(2, k) ==> mwoken(smVal(p.metas, k).(*meta)) > old(mwoken(smVal(p.metas, k).(*meta)))
+//@   ensures [tables_kept] tablesWF(n)
 //@   ensures [gone_from_process_table] !smHas(n.processes, any(p.pid))
 //@   ensures [name_released] abVal(p.registered) ==> !smHas(n.names, any(p.name))
 //@   ensures [aliases_released] forall j int :: 0 <= j && j < len(p.aliases) ==> !smHas(n.aliases, any(p.aliases[j]))
@@ -813,3 +818,77 @@ package node
 //@   at call start assert [dependencies_first] forall j int :: 0 <= j && j < len(a.spec.Depends.Applications) ==> depReady(a.spec.Depends.Applications[j])
 //@   at call start assert [the_loaded_application_in_its_spec_mode] smHas(n.applications, any(name)) && a == smVal(n.applications, any(name)).(*application) && mode == a.spec.Mode
 //@   ensures [unknown] !old(smHas(n.applications, any(name))) ==> result == gen.ErrApplicationUnknown
+
+// C17: unload. Only an application whose word is Loaded can be unloaded (the CAS Loaded->0 claims
+// it); a running or stopping application stays registered, so that the terminations of its members
+// still reach application.terminate and the Terminate callback still runs.
+//@ func (a *application) tryUnload
+//@   props C17
+//@   modifies a.state
+//@   ensures [claims_only_a_loaded_application] result == (old(a.state) == 1) && (result ==> a.state == 0) && (!result ==> a.state == old(a.state))
+//@ func (a *application) unregisterAppRoute
+//@   trusted
+//@ func (n *node) ApplicationUnload
+//@   props C17
+//@   mode int
+//@   modifies smHas(n.applications), anyof(application).state
+//@   requires [tables] applicationsWF(n)
+//@   ensures [unknown] !old(smHas(n.applications, any(name))) ==> result == gen.ErrApplicationUnknown
+//@   ensures [only_a_loaded_application_is_unloaded] result == nil ==> old(smHas(n.applications, any(name))) && old(smVal(n.applications, any(name)).(*application).state) == 1 && !smHas(n.applications, any(name))
+//@   ensures [busy_application_stays_registered] old(smHas(n.applications, any(name))) && old(smVal(n.applications, any(name)).(*application).state) != 1 ==> result == gen.ErrApplicationRunning && smHas(n.applications, any(name)) && smVal(n.applications, any(name)).(*application).state == old(smVal(n.applications, any(name)).(*application).state)
+
+// C14: node down. For every (target, consumers) pair the target manager hands back, every listed link
+// consumer gets one exit and every listed monitor consumer one down message (no consumer is skipped:
+// the call counters advance with the index of the inner loops), each carrying the "no connection"
+// reason and sent on behalf of the node; downs go out with High priority.
+//@ iface gen.TargetManager.CleanupNode
+//@ func (n *node) RouteNodeDown
+//@   props C14
+//@   mode int
+//@   no_frame
+//@   requires [tables] n.targetManager != nil && tablesWF(n)
+//@   loop 1 invariant [tables1] tablesWF(n) && n.targetManager != nil
+//@   loop 2 invariant [one_exit_per_listed_link_consumer] -1 <= rangeindex && rangeindex < len(linkConsumers) && exitCalls() == pre(exitCalls()) + rangeindex + 1 && tablesWF(n)
+//@   loop 3 invariant [tables3] tablesWF(n)
+//@   loop 4 invariant [one_down_per_listed_monitor_consumer] -1 <= rangeindex && rangeindex < len(monitorConsumers) && routeCalls() == pre(routeCalls()) + rangeindex + 1 && tablesWF(n)
+//@   at call sendExitMessage assert [exit_from_the_node_with_no_connection_reason] from == n.corePID && to == caller_pid && (typeis(message, gen.MessageExitPID) ==> message.(gen.MessageExitPID).Reason == gen.ErrNoConnection) && (typeis(message, gen.MessageExitProcessID) ==> message.(gen.MessageExitProcessID).Reason == gen.ErrNoConnection) && (typeis(message, gen.MessageExitAlias) ==> message.(gen.MessageExitAlias).Reason == gen.ErrNoConnection) && (typeis(message, gen.MessageExitEvent) ==> message.(gen.MessageExitEvent).Reason == gen.ErrNoConnection) && (typeis(message, gen.MessageExitNode) ==> message.(gen.MessageExitNode).Name == name)
+//@   at call RouteSendPID assert [down_with_high_priority_and_no_connection_reason] options.Priority == gen.MessagePriorityHigh && to == caller_pid && (typeis(message, gen.MessageDownPID) ==> message.(gen.MessageDownPID).Reason == gen.ErrNoConnection) && (typeis(message, gen.MessageDownProcessID) ==> message.(gen.MessageDownProcessID).Reason == gen.ErrNoConnection) && (typeis(message, gen.MessageDownAlias) ==> message.(gen.MessageDownAlias).Reason == gen.ErrNoConnection) && (typeis(message, gen.MessageDownEvent) ==> message.(gen.MessageDownEvent).Reason == gen.ErrNoConnection) && (typeis(message, gen.MessageDownNode) ==> message.(gen.MessageDownNode).Name == name)
+
+// C10: node stop. Graceful: every application but the system one is asked to stop, every process is
+// sent the shutdown exit signal *on behalf of its parent* (an exit from the parent cannot be trapped),
+// and the network and the loggers are taken down only after the wait for the process wait-group has
+// returned. Forced: every process is killed. exitReq(pid) counts RouteSendExit requests (ghost).
+//@ ghostheap exitReq(p gen.PID) int
+//@ func (n *node) RouteSendExit
+//@   trusted
+//@   modifies exitReq(to)
+//@   ensures exitReq(to) == old(exitReq(to)) + 1
+//@ func (n *node) NetworkStop
+//@   trusted
+//@ func (c *cron) terminate
+//@   trusted
+//@ iface gen.LoggerBehavior.Terminate
+//@ spec func procAt(n *node, k any) *process = smVal(n.processes, k).(*process)
+//@ spec func stopWF(n *node) bool = n.log != nil && tablesWF(n) && applicationsWF(n) && (forall k any :: smHas(n.applications, k) ==> smVal(n.applications, k).(*application).node == n)
+
+//@ func (n *node) stop$2
+//@   props C10
+//@   mode int
+//@   no_frame
+//@   requires [tables] stopWF(n) && typeis(v, *process) && v.(*process) != nil
+//@   at call RouteSendExit assert [shutdown_signal_on_behalf_of_the_parent] from == p.parent && to == p.pid && reason == gen.TerminateReasonShutdown
+//@   at call Kill assert [kills_that_process] pid == p.pid
+
+//@ func (n *node) stop
+//@   props C10
+//@   mode int
+//@   no_frame
+//@   no_safety
+//@   requires [tables] stopWF(n)
+//@   at range 1 invariant [tables1] stopWF(n)
+//@   at range 1 invariant [no_wait_yet1] wgWaits(n.waitprocesses) == old(wgWaits(n.waitprocesses))
+//@   at range 2 invariant [no_wait_yet2] wgWaits(n.waitprocesses) == old(wgWaits(n.waitprocesses))
+//@   at range 2 invariant [tables2] tablesWF(n)
+//@   at call stop assert [applications_are_stopped_gracefully] force == false
+//@   at call NetworkStop assert [network_goes_down_only_after_the_wait_for_the_processes] caller_force || wgWaits(n.waitprocesses) == old(wgWaits(n.waitprocesses)) + 1
+//@   ensures [graceful_stop_waits_for_the_processes] old(n.creation) > 0 && !force ==> wgWaits(n.waitprocesses) == old(wgWaits(n.waitprocesses)) + 1
